@@ -440,7 +440,10 @@ def _exit(r, p, cg):
         if ("call", "oRules.clear_violations") not in facts.facts_at(n):
             r.fail("C14.exit", ar.key + ":clear-before-check", "final check_rules not preceded by clear_violations", ar.loc(n))
     # main
-    main = p.function("vsg.__main__:main")
+    from ..model import inline_helpers
+
+    # the per-file record / print block may live in a helper of __main__ (extract-function refactoring)
+    main = inline_helpers(p, p.function("vsg.__main__:main"), toward={"print"})
     mf = Facts(main.node)
     exits = [n for n in walk_function(main.node) if isinstance(n, ast.Call) and callee_text(n) == "sys.exit"]
     if not exits:
